@@ -70,9 +70,10 @@ type svdCfg struct {
 func genDgesvd(g *vlib.G) {
 	lim := vlib.Pick(g, 6, 10)
 	profs := profSet(g.Thorough(), 4)
-	ldsSmall := [][3]int{{0, 0, 0}, {2, 2, 2}}
+	// leading dimensions vary independently: (lda, ldu, ldvt) paddings all different
+	ldsSmall := [][3]int{{0, 0, 0}, {2, 1, 3}}
 	if g.Thorough() {
-		ldsSmall = append(ldsSmall, [3]int{2, 0, 1}, [3]int{0, 2, 0})
+		ldsSmall = append(ldsSmall, [3]int{2, 2, 2}, [3]int{0, 2, 0}, [3]int{1, 0, 2})
 	}
 	var plan []svdCfg
 	for m := 0; m <= lim; m++ {
@@ -88,7 +89,7 @@ func genDgesvd(g *vlib.G) {
 		sq = append(sq, 74, 75, 76, 100, 129, 150)
 	}
 	stockFams := []family{genFamilies[0], genFamilies[1], genFamilies[7], genFamilies[8]}
-	stockLds := [][3]int{{0, 0, 0}, {2, 2, 2}}
+	stockLds := [][3]int{{0, 0, 0}, {2, 1, 3}}
 	shapes := [][2]int{}
 	for _, n := range sq {
 		shapes = append(shapes, [2]int{n, n})
@@ -359,7 +360,7 @@ func genDgebrd(g *vlib.G) {
 	for m := 0; m <= lim; m++ {
 		for n := 0; n <= lim; n++ {
 			for _, p := range profs {
-				plan = append(plan, cfg{m, n, p, genFamilies[:9]})
+				plan = append(plan, cfg{m, n, p, genFamilies[:12]})
 			}
 		}
 	}
@@ -504,7 +505,7 @@ func runDgebrd(t *vlib.T, m, n int, p prof, f family, ldx int, lw string) {
 	for _, oc := range ocs {
 		for _, olw := range []string{"min", "query"} {
 			ctx := fmt.Sprintf("vect=%c %dx%d k=%d lwork=%s", oc.vect, oc.r, oc.c, oc.k, olw)
-			ldq := ldOf(max(oc.c, n), ldx)
+			ldq := ldOf(max(oc.c, n), off(ldx, 1))
 			// the reflectors live in the leading part of an array that has room for the result
 			st := newS(max(oc.r, m), max(oc.c, n), ldq)
 			for i := 0; i < m && n > 0; i++ {
@@ -557,7 +558,7 @@ func runDgebrd(t *vlib.T, m, n int, p prof, f family, ldx int, lw string) {
 					}
 					ctx := fmt.Sprintf("vect=%c side=%c trans=%c C=%dx%d lwork=%s", vect, side, trans, cr, cc, olw)
 					cm := intGeneral(cr, cc, 3, lcgFor(11, cr, cc))
-					ldc := ldOf(cc, ldx)
+					ldc := ldOf(cc, off(ldx, 2))
 					cs := fromM(cm, ldc).snap()
 					var want M
 					if side == blas.Left {
@@ -646,7 +647,7 @@ func runBdsqr(t *vlib.T, p prof, m, n int, d, e []float64, a, q, pm M, ldx int) 
 		dd, ee := append([]float64(nil), d...), append([]float64(nil), e...)
 		var vts, us, cs *S
 		var vtd, ud, cd []float64
-		ldvt, ldu, ldc := max(1, ncvt)+ldx, max(1, k)+ldx, max(1, ncc)+ldx
+		ldvt, ldu, ldc := max(1, ncvt)+off(ldx, 1), max(1, k)+off(ldx, 2), max(1, ncc)+off(ldx, 3)
 		if ncvt > 0 {
 			vts = fromM(ptk, ldvt).snap()
 			vtd = vts.d
